@@ -66,7 +66,9 @@ func canonCond(t *term, neg bool) string {
 		neg = !neg
 	}
 	if t.op == "cmp" && len(t.args) == 2 {
-		a, b := t.args[0].String(), t.args[1].String()
+		// one form of a single-bit test: (w >> k) & 1 against 0  ==  w & (1 << k) against 0
+		x0, x1 := bitTestForm(t.args[0], t.args[1]), bitTestForm(t.args[1], t.args[0])
+		a, b := x0.String(), x1.String()
 		op := t.name
 		if neg {
 			switch op {
@@ -471,4 +473,19 @@ func resolveDerivedFlag(p *Program, t *term) *term {
 		return ON("lnot", "", def)
 	}
 	return def
+}
+
+// bitTestForm: when other is the constant 0 and x is and(1, shr:u(w, k)), the equivalent and(w, pow2(k)).
+func bitTestForm(x, other *term) *term {
+	if !isK(other) || other.c != 0 {
+		return x
+	}
+	if x.op == "and" && len(x.args) == 2 {
+		for _, pr := range [][2]*term{{x.args[0], x.args[1]}, {x.args[1], x.args[0]}} {
+			if isK(pr[0]) && pr[0].c == 1 && pr[1].op == "shr" && len(pr[1].args) == 2 {
+				return O("and", pr[1].args[0], &term{op: "pow2", args: []*term{pr[1].args[1]}})
+			}
+		}
+	}
+	return x
 }
